@@ -108,7 +108,7 @@ class TU:
         self.objs = []
         for p in ([paths] if isinstance(paths, str) else paths):
             self.objs += load_objs(p)
-        self.byid = {}
+        self.byid = {}; self.ns_scopes = set()
         self.parent = {}
         self.qname = {}
         self.canon = {}        # any redeclaration id -> id of the definition (or itself)
@@ -179,6 +179,7 @@ class TU:
         newscope = scope
         if k == 'NamespaceDecl':
             newscope = scope + (name or '(anon)') + '::'
+            self.ns_scopes.add(newscope)
         elif k in ('CXXRecordDecl', 'ClassTemplateSpecializationDecl'):
             if n.get('parentDeclContextId') and n['parentDeclContextId'] in self.qname:
                 scope = self.qname[n['parentDeclContextId']] + '::'
@@ -206,6 +207,10 @@ class TU:
             sc = scope
             if n.get('parentDeclContextId') and n['parentDeclContextId'] in self.qname:
                 sc = self.qname[n['parentDeclContextId']] + '::'
+            if k == 'FunctionDecl' and parent is not None and parent.get('kind') == 'FriendDecl':
+                # a friend function declared inside a class is a member of the enclosing namespace (its definition in another TU is named there)
+                while sc and sc not in self.ns_scopes:
+                    sc = sc[:-2]; sc = sc[:sc.rfind('::') + 2] if '::' in sc else ''
             n['_scope'] = sc
             n['_record'] = sc[:-2] if (k != 'FunctionDecl') else None
             self.qname[i] = sc + (name or '')
